@@ -92,7 +92,7 @@ func (b *c17HoldBus) releaseOne() {
 
 type c17Mixed struct{}
 
-func (c17Mixed) IsMixedAccessSVLAN(svlan uint16) bool { return svlan == 100 }
+func (c17Mixed) IsMixedAccessSVLAN(svlan uint16) bool { return svlan == 100 || svlan == 101 }
 
 type c17Tuple struct {
 	mac  net.HardwareAddr
@@ -101,11 +101,19 @@ type c17Tuple struct {
 	name string
 }
 
+// t0 is the base tuple; every other tuple differs from it in as few components as possible: t1 MAC[5], t2 C-VLAN, t3 C-VLAN 0 and MAC[5],
+// t4 S-VLAN, t5..t9 MAC[0]..MAC[4]
 var c17Tuples = []c17Tuple{
 	{net.HardwareAddr{0x02, 0xaa, 0xbb, 0xcc, 0x00, 0x01}, 10, 100, "t0"},
-	{net.HardwareAddr{0x02, 0xaa, 0xbb, 0xcc, 0x00, 0x11}, 10, 100, "t1"}, // same shard as t0
-	{net.HardwareAddr{0x02, 0xaa, 0xbb, 0xcc, 0x00, 0x01}, 11, 100, "t2"}, // same MAC, other C-VLAN
+	{net.HardwareAddr{0x02, 0xaa, 0xbb, 0xcc, 0x00, 0x11}, 10, 100, "t1"},
+	{net.HardwareAddr{0x02, 0xaa, 0xbb, 0xcc, 0x00, 0x01}, 11, 100, "t2"},
 	{net.HardwareAddr{0x02, 0xaa, 0xbb, 0xcc, 0x00, 0x02}, 0, 100, "t3"},
+	{net.HardwareAddr{0x02, 0xaa, 0xbb, 0xcc, 0x00, 0x01}, 10, 101, "t4"},
+	{net.HardwareAddr{0x06, 0xaa, 0xbb, 0xcc, 0x00, 0x01}, 10, 100, "t5"},
+	{net.HardwareAddr{0x02, 0xab, 0xbb, 0xcc, 0x00, 0x01}, 10, 100, "t6"},
+	{net.HardwareAddr{0x02, 0xaa, 0xba, 0xcc, 0x00, 0x01}, 10, 100, "t7"},
+	{net.HardwareAddr{0x02, 0xaa, 0xbb, 0xcd, 0x00, 0x01}, 10, 100, "t8"},
+	{net.HardwareAddr{0x02, 0xaa, 0xbb, 0xcc, 0x01, 0x01}, 10, 100, "t9"},
 }
 
 type c17World struct {
@@ -142,7 +150,7 @@ func c17NewWorld(hold bool) *c17World {
 	cfg := &config.Config{
 		SubscriberGroups: &subscriber.SubscriberGroupsConfig{
 			Groups: map[string]*subscriber.SubscriberGroup{
-				"grp": {IPv4Profile: "v4", IPv6Profile: "v6", AAAPolicy: "p1", VLANs: []subscriber.VLANRange{{SVLAN: "100"}}},
+				"grp": {IPv4Profile: "v4", IPv6Profile: "v6", AAAPolicy: "p1", VLANs: []subscriber.VLANRange{{SVLAN: "100-101"}}},
 			},
 		},
 		AAA: aaacfg.AAAConfig{Policy: []aaacfg.AAAPolicy{{Name: "p1", Type: aaacfg.PolicyTypeDHCP, Format: "$mac-address$"}}},
@@ -281,10 +289,13 @@ func (w *c17World) settle(t c17Tuple) string {
 }
 
 func (w *c17World) snapshotAll(first c17Tuple) string {
+	// the op's own tuple, then every other tuple that is not empty
 	parts := []string{w.snapshot(first)}
 	for _, t := range c17Tuples {
 		if t.name != first.name {
-			parts = append(parts, w.snapshot(t))
+			if s := w.snapshot(t); !strings.HasSuffix(s, ":i0p0:-") {
+				parts = append(parts, s)
+			}
 		}
 	}
 	return strings.Join(parts, ",")
